@@ -12,7 +12,8 @@ Definition op_is (op : bytes) (s : string) : bool := bytes_eqb op (str s).
 Definition r_bool (r : res bool) : val := vres (fun b => [vbool b]) r.
 Definition r_int (r : res Z) : val := vres (fun z => [vint z]) r.
 
-Definition dispatch (op : bytes) (args : list val) : val :=
+(* sub-dispatchers return None for operations they do not know *)
+Definition dispatch_core (op : bytes) (args : list val) : val :=
   if op_is op "ping" then vsym "pong"%string
   else if op_is op "header" then
     match args with
@@ -36,6 +37,21 @@ Definition dispatch (op : bytes) (args : list val) : val :=
     | _, _ => bad "arity"
     end
   else bad "op".
+
+Fixpoint first_some (fs : list (bytes -> list val -> option val)) (op : bytes) (args : list val) : option val :=
+  match fs with
+  | [] => None
+  | f :: r => match f op args with Some v => Some v | None => first_some r op args end
+  end.
+
+(* registered sub-dispatchers (one per model family) *)
+Definition subs : list (bytes -> list val -> option val) := [].
+
+Definition dispatch (op : bytes) (args : list val) : val :=
+  match first_some subs op args with
+  | Some v => v
+  | None => dispatch_core op args
+  end.
 
 Definition run_line (inp : bytes) : bytes :=
   match parse_line inp with
